@@ -780,6 +780,53 @@ pub struct InjectedPanic(pub u32);
 
 /// Installs a panic hook that stays silent for injected panics and prints
 /// everything else.
+// ------------------------------------------------------------------ hang watchdog
+//
+// A call into the code under test that never returns (a self-deadlock, say) cannot be caught in-process: the
+// thread is gone for good. Every engine registers the case it is running; a watchdog thread ends the process with
+// exit code 4 and a HANG line when one case has been running for longer than the limit. The driver runs the check
+// again and only believes a hang that repeats.
+
+static RUNNING: std::sync::Mutex<Vec<(std::thread::ThreadId, std::time::Instant, String)>> = std::sync::Mutex::new(Vec::new());
+
+/// Registers the case the current thread is about to run (until the guard is dropped).
+pub struct CaseGuard;
+impl CaseGuard {
+    pub fn new(desc: String) -> CaseGuard {
+        let id = std::thread::current().id();
+        let mut r = RUNNING.lock().unwrap_or_else(|e| e.into_inner());
+        r.retain(|x| x.0 != id);
+        r.push((id, std::time::Instant::now(), desc));
+        CaseGuard
+    }
+}
+impl Drop for CaseGuard {
+    fn drop(&mut self) {
+        let id = std::thread::current().id();
+        RUNNING.lock().unwrap_or_else(|e| e.into_inner()).retain(|x| x.0 != id);
+    }
+}
+
+/// Starts the watchdog thread (limit in seconds; VERIF_HANG_LIMIT overrides it).
+pub fn install_hang_watchdog(prop: &str) {
+    let limit = std::env::var("VERIF_HANG_LIMIT").ok().and_then(|s| s.parse::<u64>().ok()).unwrap_or(420);
+    let prop = prop.to_string();
+    let _ = std::thread::Builder::new().name("vh-hang-watchdog".into()).spawn(move || loop {
+        std::thread::sleep(std::time::Duration::from_secs(5));
+        let stuck: Option<(u64, String)> = {
+            let r = RUNNING.lock().unwrap_or_else(|e| e.into_inner());
+            r.iter().filter(|x| x.1.elapsed().as_secs() >= limit).map(|x| (x.1.elapsed().as_secs(), x.2.clone())).next()
+        };
+        if let Some((secs, desc)) = stuck {
+            let d: String = desc.split_whitespace().collect::<Vec<_>>().join("_");
+            println!("HANG property={} seconds={} case={}", prop, secs, d);
+            use std::io::Write;
+            let _ = std::io::stdout().flush();
+            std::process::exit(4);
+        }
+    });
+}
+
 pub fn install_panic_hook() {
     static SHOWN: std::sync::atomic::AtomicUsize = std::sync::atomic::AtomicUsize::new(0);
     let prev = std::panic::take_hook();
